@@ -197,6 +197,11 @@ func (m *mcastEnv) expectReaders(n int, when string) {
 		time.Sleep(20 * time.Millisecond) // a writer that is being torn down by mistake gets the time to go
 		c = m.counts()
 		gs := mcastListenerGoroutines()
+		// a listener goroutine is recognised by the pkg/multicast frame of its blocked read: one that is handing a datagram
+		// to its callback is not in that frame at this instant, so a short count is dumped again before it is believed
+		for lim := time.Now().Add(2 * time.Second); c.MulticastWriters == m.nMedias && len(gs) < 2*m.nMedias && time.Now().Before(lim); gs = mcastListenerGoroutines() {
+			time.Sleep(5 * time.Millisecond)
+		}
 		if c.MulticastWriters != m.nMedias || len(gs) != 2*m.nMedias {
 			m.once("multicast-writer-closed-while-reader-remains", "%s: %d multicast reader(s) attached, but %d of %d medias have a multicast writer and %d of %d listener goroutines run",
 				when, c.MulticastReaderCount, c.MulticastWriters, m.nMedias, len(gs), 2*m.nMedias)
